@@ -37,9 +37,15 @@ PROPS["C13"] = {
         "not part of this model (events are fed as well-formed wire text)."),
     "rule": (
         "exhaustive histories of <= 6 (quick) / 7 (thorough) operations over {subscribe \"\", subscribe \"x\", subscribe-to-all, remover 0/1/2, "
-        "event \"\", event \"x\"} each followed by one event of every type; seeded random histories (<= 40 / 120 operations, 4 types incl. a "
-        "case variant, 3 labels, old removers called again and again); Connect started at a random point up to the first event; concurrent "
-        "scenarios (remover during dispatch x 4 kind pairs, storms); one race-detector run over 344 concurrent scenarios/histories. "
+        "event \"\", event \"x\"} each followed by one event of every type, and the same sweep one operation shorter with the named type "
+        "\"message\" (the specification's name for the unnamed type) in place of \"x\"; seeded random histories (<= 40 / 120 operations, a pool "
+        "of 4 types: the unnamed type next to ordinary names or next to its look-alikes \"message\", \"Message\", \" message\", \"messages\" ...; "
+        "3 labels, old removers called again and again); Connect started at a random point up to the first event; concurrent "
+        "scenarios (remover during dispatch x 4 kind pairs, storms); operations that MEET (24 / 400 cases of 50 / 60 rounds: k goroutines "
+        "subscribing to one type nobody is subscribed to, or subscriptions and the removers of the type's last subscriptions, released "
+        "together from a spinning barrier; events are released only after all those calls have returned, so who must receive them - each "
+        "exactly once, removed ones not at all, a decoy of another type nobody - is a function of the input and is judged by the extracted "
+        "model and oracle; needs more than one processor to interleave); one race-detector run over 350 concurrent scenarios/histories. "
         "non-trivial = distinct histories (every one runs against a real Connection)"),
     "assumptions": [
         "the lock discipline of client_connection.go (mu.Lock around add/remove, mu.RLock around the whole of dispatch) and sync.RWMutex's exclusion, as modelled in CallbacksLts.v",
@@ -83,12 +89,18 @@ PROPS["C16"] = {
         "Session: every call sequence of length <= 3 (quick) / 4 (thorough) over {Send data, Send id+type+retry+comment+2-line data, Send "
         "empty message, Flush} on 8 flushing writer shapes (FlushError, Flusher, both, wrapped 1-2 levels, outer Flusher hiding inner "
         "FlushError) with no failure and with a failure at the k-th writer operation for EVERY k (accepting 0 / 1 / all bytes), some with a "
-        "second later failure; seeded random messages, sequences <= 8 calls and scripts with several failures; writers that cannot flush. "
+        "second later failure; seeded random messages, sequences <= 8 calls and scripts with several failures; writers that cannot flush; "
+        "every sequence also with a Content-Type ALREADY on the response before Upgrade (8 presets: another media type, "
+        "text/event-stream with a parameter or in another case, an empty value, no value, two values), with and without a failing first flush. "
         "ServeHTTP: product of 11 writer shapes x 9 Last-Event-Id header variants (absent, empty, plain, with LF, with CR, several, empty "
-        "first, NUL/space) x 8 OnSession variants (nil, topics, empty topics, reject with/without own status, accept with own status) x 6 "
-        "provider behaviours (nil / error before sending / after sending / flush only) x failure positions (sampled in the quick tier), plus "
+        "first, NUL/space) x 10 OnSession variants (nil, topics, empty topics, reject with/without own status, accept with own status) x 6 "
+        "provider behaviours (nil / error before sending / after sending / flush only) x failure positions (sampled in the quick tier); the "
+        "same product (a third of it) with 8 OnSession variants that put a Content-Type on the response before accepting / accepting with "
+        "a status / rejecting, and with 17 providers refusing with the errors providers really return - sse.ErrProviderClosed, "
+        "sse.ErrNoTopic, context.Canceled, context.DeadlineExceeded, each also wrapped (%w) and joined (errors.Join), an opaque error "
+        "that only reads like a sentinel - before and after sending; plus "
         "seeded random requests; 150 / 2000 random message/call sequences through a real net/http server and client on the loopback "
-        "interface (status, Content-Type and whole body as the client receives them; key real-server, or real-server:unavailable). non-trivial = distinct inputs (every one runs against the real Session / Server)"),
+        "interface, half of them with a Content-Type preset by OnSession (status, Content-Type and whole body as the client receives them; key real-server, or real-server:unavailable). non-trivial = distinct inputs (every one runs against the real Session / Server)"),
     "assumptions": [
         "errors returned by the writer are non-nil values (script_ok); messages have an int64 Retry (WriteTo does not panic: retry_digits_fit)",
         "the Unwrap chain of the ResponseWriter is finite",
